@@ -667,3 +667,21 @@ fn u6_dua_two_peers() {
     kani::assert(x.inner().is_uninit() && x.inner().weak() == wx - 1, "U6.dua.ends_gone_weak_minus_one");
     core::mem::forget((x, p, q));
 }
+
+/// a member's destructor downgrades a handle to a dying peer that had no Weak so far (weak 1 = only the
+/// implicit one) and keeps the new Weak: the peer's allocation must survive the collection
+#[kani::proof]
+#[kani::unwind(7)]
+fn u6_drop_cycle_destructor_downgrades_peer() {
+    let wb: usize = kani::any();
+    kani::assume(wb >= 2);
+    let (a, b, m) = ring2(1, 1, 1, 1, 1, wb);
+    unsafe {
+        vmap::OBS_INC_WEAK_ONCE[0] = true;
+    }
+    unsafe { drop_cycle(m) };
+    // a: implicit weak released, the Weak created during the teardown remains
+    kani::assert(a.inner().is_uninit() && a.inner().weak() == 1, "U6.drop_cycle.member_with_weak_created_during_teardown_is_kept");
+    kani::assert(b.inner().is_uninit() && b.inner().weak() == wb - 1, "U6.drop_cycle.each_member_weak_minus_one_exactly_once");
+    core::mem::forget((a, b));
+}
